@@ -319,6 +319,7 @@ def eval_term_in_coq(pid, header, term, timeout=300):
 def driver_env():
     env = dict(os.environ)
     env["PYTHONPATH"] = REPO + ":" + ROOT
+    env["VERIF_REPO"] = REPO
     env["PYTHONHASHSEED"] = "0"
     env["PYTHONDONTWRITEBYTECODE"] = "1"
     env["OMP_NUM_THREADS"] = "1"
@@ -393,8 +394,14 @@ def run_driver(pid, cases, mode="run", nproc=None, timeout=1800):
 
 
 def load_findings():
-    with open(os.path.join(ROOT, "known_findings.json")) as f:
-        return json.load(f)
+    """known_findings.json plus per-property fragments findings.d/*.json (same format)."""
+    import glob
+    out = []
+    for p in [os.path.join(ROOT, "known_findings.json")] + sorted(
+            glob.glob(os.path.join(ROOT, "findings.d", "*.json"))):
+        with open(p) as f:
+            out += json.load(f)
+    return out
 
 
 def _get_path(obj, dotted):
